@@ -307,7 +307,7 @@ impl Property for C04 {
         1600
     }
     fn quick_cases(&self) -> u64 {
-        24_000
+        48_000
     }
     fn states_termination(&self) -> bool {
         true
